@@ -990,12 +990,16 @@ def gen_sweep_sessions(rng, calls=SWEEP_CALLS, mids=SWEEP_MIDS, trees_per_kind: 
     out = []
     for kind in SWEEP_KINDS:
         for _ in range(trees_per_kind):
-            nt = gen_tree_of_kind(rng, kind)
-            if nt is None:
-                continue
-            n, tree = nt
-            pts = in_scope_points(tree, n, [gen_point(rng, n) for _ in range(10)])
-            pts = [p for i, p in enumerate(pts) if p not in pts[:i]]
+            pts: list = []
+            for _attempt in range(8):
+                nt = gen_tree_of_kind(rng, kind)
+                if nt is None:
+                    continue
+                n, tree = nt
+                pts = in_scope_points(tree, n, [gen_point(rng, n) for _ in range(10)])
+                pts = [p for i, p in enumerate(pts) if p not in pts[:i]]
+                if len(pts) >= 2:
+                    break
             if len(pts) < 2:
                 continue
             for c1 in calls:
